@@ -34,6 +34,41 @@ def seed_from_env() -> int:
         return 0
 
 
+SOURCE_BASELINE = VERIF / "source_baseline.json"
+_changed_cache: list = []
+
+
+def changed_sources() -> list[str]:
+    """Files under REPO/dltype (tests excluded) whose content differs from the baseline the committed evidence was made on.
+    Used only to decide how deep the quick tier samples (depth()): a change never is a verdict by itself."""
+    if _changed_cache:
+        return _changed_cache[0]
+    try:
+        base = json.loads(SOURCE_BASELINE.read_text())
+    except Exception:  # noqa: BLE001
+        _changed_cache.append([])
+        return []
+    now = {}
+    for f in sorted((REPO / "dltype").rglob("*.py")):
+        rel = str(f.relative_to(REPO))
+        if "/tests/" in rel:
+            continue
+        now[rel] = hashlib.sha256(f.read_bytes()).hexdigest()
+    ch = sorted(k for k in set(base) | set(now) if base.get(k) != now.get(k))
+    _changed_cache.append(ch)
+    return ch
+
+
+def depth(tier: str, quick: int, thorough: int) -> int:
+    """Sample size of a stream.  Quick tier on a source tree that differs from the baseline: four times the quick size
+    (capped by the thorough size) - a changed tree is looked at harder than the tree the last full pass was made on."""
+    if tier != "quick":
+        return thorough
+    if changed_sources():
+        return min(thorough, quick * 4)
+    return quick
+
+
 def rng_for(prop: str, seed: int, stream: str = "") -> random.Random:
     h = hashlib.sha256(f"{prop}|{seed}|{stream}".encode()).digest()
     return random.Random(int.from_bytes(h[:8], "big"))
@@ -438,6 +473,9 @@ class Report:
             )
         if extra:
             cov.update(extra)
+        ch = changed_sources()
+        cov["source_changed_since_baseline"] = ch
+        cov["depth"] = ("quick x4 (source differs from source_baseline.json)" if ch and self.tier == "quick" else self.tier)
         ev = {
             "property_id": self.prop,
             "tier": self.tier,
